@@ -464,7 +464,7 @@ static void random_values(int s, vf_rng *r, int n)
 }
 
 /* ----------------------------------------------------------------- cases -- */
-static int n_wide_blocks(void) { return vf_thorough ? 48 : 8; }
+static int n_wide_blocks(void) { return vf_thorough ? 160 : 16; }
 static int n_random(void) { return vf_thorough ? 4000 : 1000; }
 /* blocks per source type */
 static int blocks_of(int s)
